@@ -14,6 +14,8 @@ structure Inst where
   rm : Option Wid := none                -- asyncRemove parked in suspend for this wallet
   quit : Bool := false                   -- close(quit) happened (until restart)
   begun : Bool := false                  -- an asyncRemove goroutine was started since the last restart
+  pendOff : Bool := false                -- a wallet has been imported here: MW.Spec.Pending no longer applies
+  goneAddrs : List Addr := []            -- addresses of the wallets removed from this instance
   deriving Inhabited
 
 structure St where
@@ -38,6 +40,13 @@ def addrsOf (st : St) (w : Wid) : List Addr := (AMap.get st.known w).getD []
 
 def withSpec : List String := ["bal", "utxos", "addrs", "shist", "bhist"]
 def queries : List String := withSpec ++ ["sbu", "hsbu", "shistp", "bhistp"]
+/-- observations of the pending side.  MW.Spec.Pending (C09) specifies them by the rule "a pending transaction is
+    tracked iff it is relevant to some READY, non-removed wallet": it applies while every wallet of the instance is
+    ready (after a removal has finished the spec set is re-filtered: `Spec.Pending.onWalletsChanged`).  It does not
+    apply while a wallet is flagged for removal (Rollback still parks its transactions) nor once a wallet has been
+    imported into the instance (Rollback parks an importing wallet's transactions in the pending set although the
+    follower ignores that wallet; they legitimately stay after the import) — then implementation and model only. -/
+def pendingOps : List String := ["sbu", "hsbu", "shistp", "bhistp", "pend", "pins", "pcred", "pgame"]
 
 def useTok : UseRes → String | .ok => "ok" | .unready => "unready" | .err => "err"
 
@@ -57,6 +66,28 @@ def pad8 (n : Nat) : String :=
 
 def tasksTok (q : List (Bool × Wid)) : String :=
   Led.joinSorted (q.map (fun t => (if t.1 then "remove:" else "import:") ++ t.2))
+
+/-- does MW.Spec.Pending apply to this instance now?  (every wallet ready and not flagged, none ever imported) -/
+def pendSpecOn (i : Inst) : Bool :=
+  !i.pendOff && i.led.store.status.all (fun e => e.2.synced.isNone && !e.2.removed) &&
+  -- a transaction that spends a COINBASE coin paid to an address that is not (or no longer) of a wallet of this
+  -- instance (a stranger, a wallet of the other instance, a removed wallet): the specification purges it when that
+  -- coinbase is orphaned, the code cannot (Rollback finds the spenders of an orphaned coinbase through the
+  -- coinbase's tx and credit records, which exist for the wallets' own coinbases only).  With the consensus
+  -- maturity (1000) this needs a reorganisation deeper than 1000 blocks; with the harness's it is reachable.
+  -- Reported to C09 (notes/C08.md, "orphaned foreign coinbase"); the spec column is left out for such histories.
+  !(i.led.txs.any (fun e => !e.2.cb && e.2.ins.any (fun inp =>
+      match AMap.get i.led.txs inp.tx with
+      | some p => p.cb && (match p.outs[inp.idx]? with
+          | some o => i.goneAddrs.contains o.addr || (AMap.get i.led.own o.addr).isNone
+          | none => false)
+      | none => false)))
+
+/-- a follower event (tip notification, unconfirmed transaction) handled while some wallet of the instance has a keystore
+    but is not ready (flagged for removal, importing): Rollback and the conflict purge still act on that wallet's
+    transactions, which the ready-wallets-only specification cannot see — from here on it no longer applies -/
+def noteEvent (i : Inst) : Inst :=
+  if i.led.store.status.all (fun e => e.2.synced.isNone && !e.2.removed) then i else { i with pendOff := true }
 
 /-- split "model\tspec" -/
 def splitOut (o : String) : String × String :=
@@ -156,6 +187,7 @@ def instStepRest (st : St) (two : Bool) (args : List String) : St × String :=
   | ["notify", b] =>
     -- Led's oracle says "ok iff the block is on the node's chain"; a (stale) notification for a block the
     -- follower itself already has at that height also succeeds: the follower steps back onto it.
+    let i := noteEvent i
     let (l', o) := Led.step l args
     let (m, sp) := splitOut o
     match AMap.get l.node.known b with
@@ -164,12 +196,18 @@ def instStepRest (st : St) (two : Bool) (args : List String) : St × String :=
         (setI st two { i with led := { l' with specChain := l.specChain.take (blk.height + 1) } }, "ok\tok")
       else (setI st two { i with led := l' }, o)
     | none => (setI st two { i with led := l' }, o)
+  | ["recvtx", _] =>
+    let (l', o) := Led.step l args
+    (setI st two { noteEvent i with led := l' }, o)
   | op :: w :: _ =>
     if queries.contains op && useWallet l.store l.wallets w != .ok then
       (st, if withSpec.contains op then "err\terr" else "err")
     else
       let (l', o) := Led.step l args
-      (setI st two { i with led := l' }, o)
+      (setI st two { i with led := l' }, if pendingOps.contains op && !pendSpecOn i then (splitOut o).1 else o)
+  | [op] =>
+    let (l', o) := Led.step l args
+    (setI st two { i with led := l' }, if pendingOps.contains op && !pendSpecOn i then (splitOut o).1 else o)
   | _ =>
     let (l', o) := Led.step l args
     (setI st two { i with led := l' }, o)
@@ -209,7 +247,7 @@ def instStep (st : St) (two : Bool) (args : List String) : St × String :=
       let names := addrs ++ List.replicate (cnt - addrs.length) "?"
       let l' := addKeystore { l with store := importWalletStore l.store w addrs } w addrs
       let q := if addrs.isEmpty then i.queue else i.queue ++ [(false, w)]
-      (setI st two { i with led := l', queue := q }, s!"ok {statusTok l'.store w} {Led.joinSorted names}")
+      (setI st two { i with led := l', queue := q, pendOff := true }, s!"ok {statusTok l'.store w} {Led.joinSorted names}")
   | [op, w] =>
     if op != "impstep" && op != "impstep!" then instStepRest st two args else
     if (AMap.get st.known w).isNone then (st, "bad-op") else
@@ -250,12 +288,12 @@ def fill (st : St) (k : Nat) (tag : String) (m : Nat) : St × String := Id.run d
     if m % 2 = 1 then
       let (l4, o4) := Led.step st.a.led ["notify", bn]
       if !o4.startsWith "ok" then return (st, "err-notify1")
-      st := { st with a := { st.a with led := l4 } }
+      st := { st with a := { noteEvent st.a with led := l4 } }
     if (m / 2) % 2 = 1 then
       let i := getI st true
       let (l5, o5) := Led.step i.led ["notify", bn]
       if !o5.startsWith "ok" then return (st, "err-notify2")
-      st := setI st true { i with led := l5 }
+      st := setI st true { noteEvent i with led := l5 }
   return (st, "ok")
 
 /-- routing: instance prefix, node-level ops, everything else through `h` -/
